@@ -1063,8 +1063,27 @@ func (P *Prog) RetAlternatives(f *ssa.Function, idx int) []RetAlt {
 // sets of the edges entering it; nil when the block does more than return or has a single entry.
 func (P *Prog) retEntryEdges(ret *ssa.Return) [][]Atom {
 	b := ret.Block()
-	if len(b.Instrs) != 1 || len(b.Preds) < 2 || len(b.Preds) > 6 {
+	if len(b.Preds) < 2 || len(b.Preds) > 6 {
 		return nil
+	}
+	// the block may build the returned value (an error constructor, a conversion) — that runs whichever edge was
+	// taken; it must not merge values (Phi) or have effects of its own that a rule could attribute to one edge only
+	for _, in := range b.Instrs[:len(b.Instrs)-1] {
+		switch x := in.(type) {
+		case *ssa.MakeInterface, *ssa.ChangeInterface, *ssa.ChangeType, *ssa.Convert, *ssa.Extract, *ssa.FieldAddr, *ssa.Field, *ssa.UnOp, *ssa.BinOp, *ssa.DebugRef, *ssa.Slice, *ssa.IndexAddr, *ssa.Alloc, *ssa.Store:
+		case *ssa.Call:
+			g := staticCallee(&x.Call)
+			if g == nil && x.Call.IsInvoke() {
+				if n := x.Call.Method.Name(); n == "String" || n == "Error" || n == "Result" {
+					continue
+				}
+			}
+			if g == nil || !(errCtorRe.MatchString(g.Name()) || g.Name() == "Sprintf" || g.Name() == "String") {
+				return nil
+			}
+		default:
+			return nil
+		}
 	}
 	var out [][]Atom
 	for _, p := range b.Preds {
